@@ -511,6 +511,11 @@ class Interp:
                 return Agg(ty, var, table[var], args)
         if re.match(r'^[A-Z]\w*$', rv):
             return Sym(rv)  # unit struct (RangeFull ...)
+        mco = re.match(r'^\{coroutine@[^}]*\}(?: \{ (.*) \})?$', rv)
+        if mco:
+            # the state machine of an `async fn` of the crate: its captured arguments, unresumed
+            ups = [self.operand(fr, fld.split(':', 1)[1]) for fld in split_top(mco.group(1))] if mco.group(1) else []
+            return Coroutine(ups)
         mcl = re.match(r'^(\{closure@[^}]*\}) \{ (.*) \}$', rv)
         if mcl:
             # a capturing closure: its environment, fields in capture order
